@@ -677,10 +677,12 @@ func (a *Account) Save() error {
 		}
 	}
 
-	// save code
+	// save code. It may have been dropped again after it was set (SetSuicide clears the code of a contract created in the same block): nothing to write then
 	if a.codeIsDirty {
-		if err := a.db.SetContractCode(a.data.CodeHash, a.code); err != nil {
-			return err
+		if len(a.code) > 0 {
+			if err := a.db.SetContractCode(a.data.CodeHash, a.code); err != nil {
+				return err
+			}
 		}
 		a.codeIsDirty = false
 	}
